@@ -33,6 +33,9 @@ pub enum Proj {
     Ctors,
     /// C15: clone and original continue identically and independently
     Clones,
+    /// C11/C13: one-rule class lexers run on single code points (all scalar values or all
+    /// boundaries +-2), against plain set membership
+    ClassSweep,
 }
 
 #[derive(Clone, Debug)]
@@ -49,6 +52,8 @@ pub struct Plan {
     pub ctors: Vec<u8>,
     /// also run without probes and require the same items
     pub check_probe_neutral: bool,
+    /// ClassSweep: every scalar value (true) or only values within +-2 of a boundary (false)
+    pub sweep_all: bool,
 }
 
 #[derive(Default)]
@@ -366,7 +371,7 @@ fn compare(proj: Proj, spec: &Spec, input: &str, script: &[u8], has_str: bool, t
                     return None; // diverged before any failure: not this property's business
                 }
             }
-            Proj::Locs | Proj::Progress | Proj::Ctors | Proj::Clones => unreachable!(),
+            Proj::Locs | Proj::Progress | Proj::Ctors | Proj::Clones | Proj::ClassSweep => unreachable!(),
         }
         let _ = &chars;
     }
@@ -567,6 +572,89 @@ impl Explorer<'_, '_> {
         n_actions
     }
 
+    /// C11/C13: the lexer's first rule is a character class `C`, alone (`C`), followed by a
+    /// literal (`C 'x'`), or used as the right context of `'a'` (`'a' > C`). Run it on every
+    /// selected scalar value and compare with set membership.
+    fn sweep(&mut self) {
+        use crate::re::{class_of, Re};
+        let spec = self.l.spec;
+        let rule0 = &spec.sets[0].rules[0];
+        let env = spec.env_of_set(0);
+        let (class_re, prefix, suffix): (&Re, &str, &str) = match (&rule0.ctx, &rule0.re) {
+            (Some(c), _) => (c, "a", ""),
+            (None, Re::Cat(c, x)) if **x == Re::Char('x') => (c, "", "x"),
+            (None, r) => (r, "", ""),
+        };
+        let set = crate::iset::scalar_only(&class_of(class_re, &env).expect("class sweep needs a class"));
+        let mut points: Vec<u32> = vec![];
+        if self.plan.sweep_all {
+            points.extend((0..=0x10FFFFu32).filter(|c| char::from_u32(*c).is_some()));
+        } else {
+            let mut cuts: std::collections::BTreeSet<u32> = [0u32, 0x7F, 0x80, 0xD7FF, 0xE000, 0x10FFFF, 'a' as u32, 'x' as u32].into_iter().collect();
+            for (s, e) in &set {
+                cuts.insert(*s);
+                cuts.insert(*e);
+            }
+            if let Some(d) = self.l.dump {
+                for st in d.states.iter().chain(d.ctxs.iter().flatten()) {
+                    for (c, _) in &st.chars {
+                        cuts.insert(*c);
+                    }
+                    for (s, e, _) in &st.ranges {
+                        cuts.insert(*s);
+                        cuts.insert(*e);
+                    }
+                }
+            }
+            let mut ps = std::collections::BTreeSet::new();
+            for c in cuts {
+                for d in -2i64..=2 {
+                    let q = c as i64 + d;
+                    if q >= 0 && q <= 0x10FFFF && char::from_u32(q as u32).is_some() {
+                        ps.insert(q as u32);
+                    }
+                }
+            }
+            points.extend(ps);
+        }
+        let mut input = String::new();
+        for q in points {
+            let c = char::from_u32(q).unwrap();
+            input.clear();
+            input.push_str(prefix);
+            input.push(c);
+            input.push_str(suffix);
+            let args = RunArgs { input: &input, script: &[], ctor: self.plan.ctors[0], probes: false, nones: 1, no_text: true };
+            let (t, _, _) = (self.l.runner)(&args, &Mode::Plain);
+            self.c.executions += 1;
+            let member = crate::iset::contains(&set, q);
+            if member {
+                self.c.rewinds += 1; // counts members seen (non-vacuity), reported under its own name
+            }
+            let lexeme_end = if prefix.is_empty() { input.len() } else { prefix.len() };
+            let ok = match t.first().map(|s| &s.item) {
+                Some(Item::Tok(a, 0, b)) => member && a.byte_idx == 0 && b.byte_idx == lexeme_end,
+                Some(Item::Invalid(l)) => !member && l.byte_idx == 0,
+                _ => false,
+            };
+            if !ok {
+                self.viol(
+                    &input,
+                    &[],
+                    self.plan.ctors[0],
+                    (
+                        format!("U+{q:04X} is {}a member of the class but the generated lexer {}", if member { "" } else { "not " }, if member { "does not match it" } else { "matches it" }),
+                        if member { format!("token 0 over bytes 0..{lexeme_end}") } else { "InvalidToken at 0".into() },
+                        format!("{:?}", t.first().map(|s| &s.item)),
+                    ),
+                );
+                if self.viols.len() >= 3 {
+                    return;
+                }
+            }
+        }
+    }
+
     /// Deviation-bounded exploration of action scripts (CHESS-style): default answers first,
     /// then every single departure at every reachable invocation, then pairs, …
     fn explore_scripts(&mut self, input: &str, prefix: Vec<u8>, devs: usize) {
@@ -629,10 +717,14 @@ pub fn run_batch(plan: &Plan, lexers: &[LexerUnderTest], first_idx: usize, threa
                     viols: vec![],
                     drift_sample: None,
                 };
-                for input in &inputs {
-                    ex.explore_scripts(input, vec![], 0);
-                    if ex.viols.len() >= 3 {
-                        break;
+                if plan.proj == Proj::ClassSweep {
+                    ex.sweep();
+                } else {
+                    for input in &inputs {
+                        ex.explore_scripts(input, vec![], 0);
+                        if ex.viols.len() >= 3 {
+                            break;
+                        }
                     }
                 }
                 let mut g = agg.lock().unwrap();
